@@ -46,3 +46,15 @@ _p("C16", modules=["quic_pkn"], level="proof",
               "the call site in decrypt_packet (result passed on unchanged) is covered by C02's contracts, not here",
    design_ref="DESIGN.md 4 C16", explanation="", assumptions=[], trusted_base=["cryptography AEAD objects: decrypt(nonce, ciphertext, aad) - recorder stand-in"],
    not_under_contract=["QuicSession.decrypt_packet (call site: passes the result to QuicDecryptor.decrypt)"])
+
+_p("C11", modules=["checksums"], level="proof",
+   level_text="ones_complement_checksum is proved (two loop invariants + variant) to return 0xFFFF - fold(sum16(pad(a))) for arrays of any length without "
+              "raising; calculate_checksum_tcp/udp are proved, for IPv4 and IPv6, any segment length and any checksum value, to return True exactly when the "
+              "RFC 1071 receiver rule accepts pseudo-header ++ segment, with the pseudo-header checked field by field against RFC 793/768/8200; the two "
+              "arithmetic lemmas about sum16 are proved by induction (base+step obligations).",
+   level_note="dpkt record model assumed: bytes(packet.tcp|udp) is the captured segment, len() its length, .sum its checksum field, ip.p/ip.nxt the protocol "
+              "number (non-zero); UDP over IPv4 with an all-zero checksum field (RFC 768 'no checksum') is outside the claim; the -c branch in main.run that "
+              "drops packets on a False verdict is covered by its own harness (cksum.run_branch) when present",
+   design_ref="DESIGN.md 4 C11", explanation="", assumptions=["sum over pseudo-header ++ segment is positive (the protocol number is non-zero)"],
+   trusted_base=["dpkt.tcp.TCP / dpkt.udp.UDP / dpkt.ip.IP / dpkt.ip6.IP6 attribute model"],
+   not_under_contract=[])
